@@ -358,10 +358,10 @@ Verdict witnessProp(Ctx& c) {
 int main(int argc, char** argv) {
   std::vector<pbt::Prop> props;
   props.push_back({"witnesses", witnessProp, 0, 0, true, false, "literal expressions that exposed repaired defects, with their set-theoretic values"});
-  props.push_back({"evaluate", evalProp, 2500, 40000, false, false, "type-directed expressions x contexts x data; 2-4 renderings each"});
-  props.push_back({"evaluate_name_reuse", evalReuseProp, 1200, 20000, false, false, "the same with a variant generator: binders re-declare names whose earlier scope has ended (sibling binders, domains of enumerated / tuple declarations), Pr with repeated / permuted index lists"});
-  props.push_back({"evaluate_imperative_chains", evalImperativeProp, 800, 12000, false, false, "imperative constructors of 2-5 blocks in which every domain / assigned value / guard is built from the variables of earlier blocks"});
-  props.push_back({"large_lazy_sets", largeLazyProp, 600, 8000, false, false, "products of base sets (up to 20 elements) and their power sets with 2^2 .. 2^80 elements: cardinality, emptiness, quantification - the exact value or a resource-limit error"});
-  props.push_back({"model_calculate", modelProp, 1200, 20000, false, false, "the same content as an RSModel: Calculate + SDataFor / StatementFor vs the reference value"});
+  props.push_back({"evaluate", evalProp, 2500, 20000, false, false, "type-directed expressions x contexts x data; 2-4 renderings each"});
+  props.push_back({"evaluate_name_reuse", evalReuseProp, 1200, 10000, false, false, "the same with a variant generator: binders re-declare names whose earlier scope has ended (sibling binders, domains of enumerated / tuple declarations), Pr with repeated / permuted index lists"});
+  props.push_back({"evaluate_imperative_chains", evalImperativeProp, 800, 6000, false, false, "imperative constructors of 2-5 blocks in which every domain / assigned value / guard is built from the variables of earlier blocks"});
+  props.push_back({"large_lazy_sets", largeLazyProp, 600, 4000, false, false, "products of base sets (up to 20 elements) and their power sets with 2^2 .. 2^80 elements: cardinality, emptiness, quantification - the exact value or a resource-limit error"});
+  props.push_back({"model_calculate", modelProp, 1200, 10000, false, false, "the same content as an RSModel: Calculate + SDataFor / StatementFor vs the reference value"});
   return pbt::main(argc, argv, "C01", props);
 }
